@@ -836,7 +836,8 @@ CHECK_DEADLOCK FALSE
 '''
 
 
-def model_check(chk: Check, quick: bool) -> None:
+def model_check(quick: bool) -> T.List[T.Tuple[str, T.Any]]:
+    """TLC on the specifications alone (runs in a thread next to the drivers)."""
     runs = [('31+22', '{31, 22}', '{"ok", "fail", "upass", "timeout", "skip"}', 'TRUE')]
     if not quick:
         runs = [
@@ -846,14 +847,14 @@ def model_check(chk: Check, quick: bool) -> None:
             ('32/2kinds/flaky', '{32}', '{"ok", "fail"}', 'TRUE'),
             ('42/2kinds', '{42}', '{"ok", "fail"}', 'FALSE'),
         ]
+    out: T.List[T.Tuple[str, T.Any]] = []
     for name, shapes, kinds, flaky in runs:
         res = run_tlc(FAM, 'TestSched_MC', cfg_text=MC_CFG % {'shapes': shapes, 'kinds': kinds, 'flaky': flaky},
                       timeout=3000, allow_violation=False, heap='4g', coverage=name == '32/3kinds')
-        chk.add_tlc(f'TestSched_MC[{name}]', res)
-        if name == '32/3kinds':
-            chk.extra['action_coverage'] = res.coverage()
+        out.append((f'TestSched_MC[{name}]', res))
     res = run_tlc(FAM, 'TestSelect_MC', cfg_text=SELECT_CFG % (2 if quick else 3), timeout=3000, allow_violation=False)
-    chk.add_tlc('TestSelect_MC', res)
+    out.append(('TestSelect_MC', res))
+    return out
 
 
 def account(chk: Check, cases: T.List[T.Dict[str, T.Any]]) -> None:
@@ -899,11 +900,7 @@ def main(chk: Check) -> None:
                 '-j/--repeat/--maxfail/--timeout-multiplier/--suite/--slice and per-run durations and exit codes; non-trivial = '
                 'the test programs observed an overlap in a run that also has a serial test, or the run contains a TIMEOUT, '
                 'an INTERRUPT or an omitted test (distinct event/result sequences)')
-    t0 = time.time()
-    model_check(chk, quick)
-    chk.extra['model_check_wall_s'] = round(time.time() - t0, 1)
-
-    n_proj = 12 if quick else 80
+    n_proj = 12 if quick else 64
     runs_per = 6 if quick else 8
     n_sel = 3 if quick else 5
     n_virtual = 600 if quick else 8000
@@ -934,21 +931,28 @@ def main(chk: Check) -> None:
     with ProcessPoolExecutor(max_workers=max(2, common.NCPU // 2)) as pex:
         v_f = [pex.submit(_virtual_job, j) for j in vjobs]
         vp_f = [pex.submit(_virtual_pattern_job, j) for j in vpat_jobs]
-        # CLI runs mostly sleep; one thread per core
-        with ThreadPoolExecutor(max_workers=common.NCPU) as tex:
+        # model checking of the specs runs next to the drivers (the CLI runs mostly sleep)
+        with ThreadPoolExecutor(max_workers=1) as mex, ThreadPoolExecutor(max_workers=common.NCPU) as tex:
+            tm = time.time()
+            mc_f = mex.submit(model_check, quick)
             cli_f = [tex.submit(_cli_project_job, j) for j in cli_jobs]
             for f in cli_f:
                 r = f.result()
                 sched_cases += r['sched']
                 if r['select']:
                     select_cases.append(r['select'])
-        for f in v_f:
-            r = f.result()
-            sched_cases += r['sched']
-            select_cases += r['select']
-        for f in vp_f:
-            sched_cases += f.result()
-    chk.extra['drive_wall_s'] = round(time.time() - t1, 1)
+            for f in v_f:
+                r = f.result()
+                sched_cases += r['sched']
+                select_cases += r['select']
+            for f in vp_f:
+                sched_cases += f.result()
+            chk.extra['drive_wall_s'] = round(time.time() - t1, 1)
+            for name, res in mc_f.result():
+                chk.add_tlc(name, res)
+                if res.coverage():
+                    chk.extra['action_coverage'] = res.coverage()
+            chk.extra['model_check_wall_s'] = round(time.time() - tm, 1)
     kinds: T.Dict[str, int] = {}
     for c in sched_cases:
         kinds[c['kind']] = kinds.get(c['kind'], 0) + 1
